@@ -34,6 +34,7 @@ RULE = (
     "psm/peptide, destination = the input directory / another directory / the input directory spelt x/../src, completed or "
     "aborted at a file event), compared byte for byte with the same rollup on a pristine input directory. Non-trivial = the debris directory differed from empty when the observed run started; distinct = "
     "(producer config, mode, k) / history."
+    " A third of the histories use prefixes / file roots containing [ ] * ? for the observed run; a file the run created or rewrote counts as its intermediate."
 )
 ASSUMPTIONS = [
     "files that existed before the observed run and are not touched by it are never counted against it",
@@ -116,7 +117,7 @@ def producer_config(p):
 OBS = {"prefix": None, "root": "run.", "chunk_frac": 2}
 
 
-def observe(res, obs_path, obs_scores, dest, clean, extra):
+def observe(res, obs_path, obs_scores, dest, clean, extra, OBS=OBS):
     """Run the observed analysis in `dest` (possibly dirty) and judge it."""
     before = snapshot(dest) if dest.exists() else {}
     n = len(obs_scores)
@@ -135,7 +136,8 @@ def observe(res, obs_path, obs_scores, dest, clean, extra):
         diff = sorted(k for k in set(got) | set(clean) if got.get(k) != clean.get(k))
         res.violate("results_depend_on_leftovers", ",".join(d.split(".")[-1] for d in diff)[:60], files=diff,
                     debris=sorted(before)[:12], **extra)
-    new = set(after) - set(before)
+    # files this run created or rewrote (leftovers it did not touch are not counted against it)
+    new = {k for k in after if before.get(k) != after[k]}
     stray = sorted(new - names)
     if stray:
         res.violate("intermediate_file_left_behind", stray[0].split(".")[0][:30], files=stray[:6], **extra)
@@ -257,23 +259,31 @@ def run_crashpoints(case):
 def run_histories(case):
     rng = core.seed_seq(case["seed"], "C09", "hist", case["index"])
     res = Result(case)
+    # names of the observed run: the usual ones, or a prefix / file root containing characters that are special in
+    # glob patterns (legal in file names; the CLI derives prefixes from input file stems such as "plate[2].pin")
+    obs = dict(OBS)
+    if case["index"] % 3 == 1:
+        obs["prefix"], obs["root"] = [("plate[2]", ""), ("s1", "exp[1]."), ("a*b", "r?."), ("[ab]", "run.")][(case["index"] // 3) % 4]
     with core.scratch("c09h") as d:
         inputs = d / "inputs"
         inputs.mkdir()
         tabB, pB, sB = make_input(rng, inputs, "B", ["pin", "parquet"][case["index"] % 2], 80, even=bool(case["index"] % 3 == 0))
         clean_dir = d / "clean"
-        c = run_conf(pB, sB, clean_dir, chunk=-(-len(sB) // OBS["chunk_frac"]), prefix=OBS["prefix"], root=OBS["root"])
+        c = run_conf(pB, sB, clean_dir, chunk=-(-len(sB) // obs["chunk_frac"]), prefix=obs["prefix"], root=obs["root"])
         if not c.ok:
             res["status"] = "inconclusive"
             return res
-        clean = {k: v for k, v in snapshot(clean_dir).items() if k in result_names(OBS["root"], OBS["prefix"])}
+        clean = {k: v for k, v in snapshot(clean_dir).items() if k in result_names(obs["root"], obs["prefix"])}
+        stray = sorted(set(snapshot(clean_dir)) - set(clean))
+        if stray:
+            res.violate("intermediate_file_left_behind", "clean_dir", files=stray[:6], names=[obs["prefix"], obs["root"]])
         dest = d / "dest"
         dest.mkdir()
         hist = []
         for j in range(int(rng.integers(1, 4))):
             cfg = producer_config(int(rng.integers(0, 12)))
             tabA, pA, sA = make_input(rng, inputs, f"A{j}", cfg["fmt"], cfg["n_spectra"])
-            prefA, rootA = (OBS["prefix"], OBS["root"]) if rng.random() < 0.6 else (str(rng.choice(["x", "y"])), "old.")
+            prefA, rootA = (obs["prefix"], obs["root"]) if rng.random() < 0.6 else (str(rng.choice(["x", "y"])), "old.")
             nA = len(sA)
             fate = str(rng.choice(["complete", "exception", "exception", "kill"]))
             if cfg["fmt"] == "parquet" and fate == "kill":
@@ -291,7 +301,7 @@ def run_histories(case):
                 _abort_producer(fate, k, producer, dest)
                 hist.append({"fate": fate, "k": k, "cfg": cfg})
         debris = snapshot(dest)
-        observe(res, pB, sB, dest, clean, dict(history=hist))
+        observe(res, pB, sB, dest, clean, dict(history=hist, names=[obs["prefix"], obs["root"]]), OBS=obs)
         res["nontrivial"] = bool(debris)
         res["sample"] = {"history": hist, "debris": sorted(debris)[:10]}
     return res
